@@ -71,3 +71,7 @@ claim("C20",
  "One ONS transaction of any of the 7 kinds through the real txDeliverer from a symbolic registry (a.ol absent/present with arbitrary owner, beneficiary, expiry, sale flag/price, active flag; sub-domain x.a.ol absent/present), actor any party: records change only by their owner or through a purchase; a purchase on sale debits the buyer at least the asking price and credits the previous owner exactly that; an expired name costs at least the base price (to the fee pool); create only for a free name with expiry = version + floor((price-base)/perBlock), sub-names inherit the parent's expiry; renew extends by exactly floor(price/perBlock) and sub-names follow.",
  "Names limited to a.ol / x.a.ol (regexp and URL parsing run natively on concrete text); balances < 2^100 nue so that the Int64() conversion of purchased block counts stays in range (above that the expiry arithmetic wraps: outside the bound, stated); devnet ONS options; one step.",
  "DESIGN.md §6 C20")
+claim("C19",
+ "Three harnesses on the real code. (1) Block-end tally ExecuteAllegationTracker (real ValidatorStore, evidence and delegation stores): one open request, 3 potential voters each yes/no/absent, 1-4 active validators, symbolic stake: the accused is frozen and penalised exactly when yes votes exceed the configured percentage of the active validators, the penalty is the configured percentage of the stake (rounded as the code documents), the bounty is the configured share of it, the remainder stays staked, innocent/undecided verdicts change no stake, and a decided request leaves the tracker. (2) ALLEGATION / ALLEGATION_VOTE / RELEASE through the real txDeliverer from arbitrary validator, active-flag, freeze-record, open-request and recorded-vote states: only an active validator opens or votes, one vote per validator, yes or no only, no allegation against a frozen validator or oneself, release only when frozen and the release time has elapsed, refused transactions record nothing. (3) STAKE / UNSTAKE / WITHDRAW naming a frozen validator fail.",
+ "One request, one step each; 2-3 parties; concrete option values (devnet percentages, release time 1 day, four block times); big.Float arithmetic of the penalty is encoded over the reals (exact for the integer inputs in range: stake < 2^40 OLT); the vote count over more than 3 voters / 4 active validators and multi-request trackers are outside.",
+ "DESIGN.md §6 C19")
